@@ -32,7 +32,7 @@ CLAIMED = {
  "C18": dict(
    text="Lean theorems (Echse.Props.C18) about the transcribed model of dt_strp/dt_strf/dt_strf_ical/idiff_strp/"
         "idiff_strf: print-then-parse is the identity for every normal instant (ISO and iCalendar forms, all "
-        "separator spellings) and for every whole-second duration of any length; equivalent W/D/H/M/S spellings and "
+        "separator spellings) and for every duration of any length and any number of milliseconds (written as a decimal fraction of the seconds since the repair D173); equivalent W/D/H/M/S spellings and "
         "a leading sign read as the value they denote. Model tied to dt-strpf.c by a two-pass differential run "
         "(print, then parse what the implementation printed) including malformed texts; the identity is also "
         "checked on the implementation's answers directly.",
@@ -74,7 +74,7 @@ CLAIMED = {
         "kernel-evaluated witness). Real mux objects (nested, ties, duplicates) are driven by random scripts in the "
         "harness and compared with the model; the order/multiset/peek conditions are checked on the implementation.",
    note="Trusted: Lean kernel, harness hx_strm.c (#includes evical.c for the array stream). Sources are assumed sorted (C16). "
-        "KNOWN FINDING D42 (duplicate hidden behind another uid at the same instant).",
+        "KNOWN FINDING D42 (duplicate hidden behind another uid at the same instant). Scripts continue a stream as its clone at random points (clone_echs_evstrm; found D177).",
    technique="Lean 4 proof (invariant by induction over peek/pop scripts, refinement to a reference merge) + differential correspondence check",
    design="§5 C03"),
  "C02": dict(
@@ -110,7 +110,7 @@ CLAIMED = {
         "/ child-exit: never early, one execution per task and tick in which occurrences came due (late ones collapse), nothing "
         "for the past, spawn times increasing, retirement after the last occurrence. echsd.c itself is compiled unmodified "
         "against a virtual-time <ev.h> and run on random histories; its spawn log, replies and table are compared with the "
-        "model and with a Python reference of the specified behaviour.",
+        "model and with a Python reference of the specified behaviour. Histories include daily tasks that began before 2001 (repair D159), iterations whose callbacks take seconds of wall clock (the stand-in then does what libev 4.33 does after ev_loop_fork: repair D157) and, one in twelve, steps of the wall clock (KNOWN FINDING D158: occurrences in between get no run; model: jump).",
    note="Trusted: Lean kernel; the libev stand-in harness/fakeev/ev.h (written from libev 4.33 periodics_reify); harness hx_echsd.c; "
         "recurrence streams abstracted to their occurrence lists (C01/C05); real clock jitter and real libev are not exercised.",
    technique="Lean 4 proof (invariants by induction over daemon histories) + differential correspondence check on echsd.c under a virtual-time event loop",
@@ -128,9 +128,9 @@ CLAIMED = {
         "the daemon's list of marked users, and compared with the model and the abstract-map reference. The pool of 64 connection "
         "slots (make_conn / free_conn, where each connection keeps its credentials): for every history of connects and hang-ups no "
         "two live connections share a slot and a client is turned away only when 64 are live (slots_distinct, "
-        "turned_away_only_when_full); the real functions are driven with up to 100 simultaneous clients.",
+        "turned_away_only_when_full); the real functions are driven with up to 100 simultaneous clients. Requests carry UIDs of 256 to 700 characters, tasks without UID line (listed and cancelled by the name made from the command's hash) and tasks with neither UID nor SUMMARY (empty_uid_refused, reachable_uid_ne; repairs D153-D156); root's own views (queue_root*, http_root*; repair D154). KNOWN FINDINGS D29 (two UIDs with equal 32-bit hashes are one entry) and D28 (the direct-mapped table grows to 1 << (ctz(a^b)+1) slots): two fixed probes.",
    note="Trusted: as C04. NOT modelled: the 32-bit hash key of a UID and the open-addressing table (two UIDs with equal hash are one "
-        "task, low-bit collisions grow the table) - findings D28/D29 are outside the model; getpwuid is replaced.",
+        "task, low-bit collisions grow the table) - findings D28/D29 are outside the model and shown by probes on the real code; getpwuid is replaced.",
    technique="Lean 4 proof (refinement to an abstract map, induction over request histories) + differential correspondence check",
    design="§5 C11"),
  "C12": dict(
@@ -188,7 +188,7 @@ CLAIMED = {
         "fed generated and damaged calendars under byte-wise, every-split-position and random chunkings with ASan; all "
         "chunkings must yield the same instruction dump as the whole input, and lines/verbs are compared with the model.",
    note="Trusted: Lean kernel; harness hx_strm.c; keyword tables regenerated from the .erf files; the meaning of property lines "
-        "(snarf_fld, make_task) is compared through the dump only (C05). KNOWN FINDING D17 (backslash escapes).",
+        "(snarf_fld, make_task) is compared through the dump only (C05). Chunkings include the empty push by which echsd ends the input (theorems chunk_independent_eof*, repair D148); the command line tool is run on generated files around its 64 KiB reads (repair D149). KNOWN FINDINGS D17 (backslash escapes), D18d (lines whose content or raw bytes reach the 1 KiB stash).",
    technique="Lean 4 proof (invariant over the stash + induction over the partition) + differential chunking check with a source hook",
    design="§5 C10"),
  "C17": dict(
@@ -217,8 +217,8 @@ CLAIMED = {
         "an oracle written from the README.",
    note="Trusted: Lean kernel; harness hx_strm.c (ops p.parse, p.rt, r.parse, r.print); the expected-attribute table of vlib/p_C05.py. "
         "The Lean part covers the rule text layer; task attributes and the stream position (DTSTART = next occurrence, remaining COUNT) "
-        "are covered by the oracle on the implementation only. SCALE=HIJRI events are not in the round-trip generator. KNOWN FINDING D15 "
-        "(INTERVAL phase of secondary or shifted rules is not preserved by the written form).",
+        "are covered by the oracle on the implementation only. SCALE=HIJRI events are not in the round-trip generator. KNOWN FINDINGS D15 "
+        "(INTERVAL phase of secondary or shifted rules is not preserved by the written form), D161-D164 and D179 (written form of several COUNT rules, EXRULE with COUNT, RRULE+RDATE+EXRULE, rules across the night the clocks go forward, BYWEEKNO with BYEASTER): each a shape of its own in the generator.",
    technique="Lean 4 proof (string-level round trip by induction over the printed parts) + differential correspondence + README oracle on the implementation",
    design="§5 C05, §9"),
  "C16": dict(
@@ -226,8 +226,7 @@ CLAIMED = {
         "candidate builders, BYSETPOS, SHIFT, BYEASTER) and the rule stream on top (refill with the held-back seed, COUNT bookkeeping, sort, "
         "pop): for EVERY parser-producible Gregorian rule and DTSTART, every prefix of the stream, across any number of refills, is strictly "
         "ascending, not before DTSTART, not after UNTIL, at most COUNT long, ends after COUNT, and consists of real dates; per filler call: "
-        "FillOk (length, bounds, sanity, order). Hypotheses: no BYHOUR/BYMINUTE/BYSECOND on a DATE-valued DTSTART (KindOk; counterexample "
-        "proved), SHIFT a pure day shift up to 365 days or a pure business-day shift up to 250 (ShiftOk; counterexample proved). The models "
+        "FillOk (length, bounds, sanity, order). Hypothesis: SHIFT a pure day shift up to 365 days or a pure business-day shift up to 250 (ShiftOk; counterexample proved); the former hypothesis KindOk (no time parts next to a DATE DTSTART) went with the repair D150. The models "
         "are compared with the real fillers call by call (op r.fill, chains imitating refills) and with the real stream (op r.strm); the "
         "invariants are also checked on the real streams of the full accepted language (SCALE=HIJRI, TZID, SHIFT, BYEASTER) over thousands "
         "of occurrences.",
